@@ -197,7 +197,82 @@ CHECKS["C12"] = dict(
           "programs); calls/members/items and non-assignment statements are covered by the correspondence only."),
     technique="Lean 4 proof (recursive-descent parser inverts unparse on the operator core) + unparse/reparse/rerun correspondence")
 
+CHECKS["C14"] = dict(
+    category="proof",
+    text=("PARTIAL: proof of schedule-independence OF A MODEL at statement granularity + threaded differential test; the C++ "
+          "memory model is outside. Lean 4 model (BlocV.Model.World) of several contexts in one process: shared immutable "
+          "executables, the shared MUTABLE cells enumerated from the source on every run by extract/shared.py (every `mutable` "
+          "member / non-const static; a new one breaks all_shared_cells_classified), per-context state = the interpreter state of "
+          "Model/Interp.lean; operations compile/start/step/clone/purge/free. Theorems (BlocV.Proofs.C14): clone_copies; footprint "
+          "and reads_footprint (an operation writes only its context + {_level, error record, what buffer} and reads no shared "
+          "mutable cell); steps_commute; interleaving_eq_sequential for EVERY schedule of any number of contexts; "
+          "purge_free_independent; shared_writes_benign (constant cells never written, citing C05.eval_frame; all writers of a "
+          "node's _level write the same value provided every exec stack is empty between runs); error_record_is_last_writer "
+          "(negative). Tied to /repo by harness/thrprobe.cpp: scripts of clone/run/purge/free with 2..8 clones on std::threads vs "
+          "the same script sequentially vs World.apply under a random interleaving, per-context results, outputs (own fd per "
+          "clone) and all variables compared; thorough tier adds a ThreadSanitizer build whose every report is classified by its "
+          "site pair against the recorded findings."),
+    design_ref="DESIGN.md §6 C14, notes/NOTES-C14.md",
+    note=("Full property is FALSE on the tree: data races on Statement::_level, bloc_error, Error::what's static buffer (script-"
+          "visible: a handled user exception can miss its handler), the RNG statics — recorded known findings; two lifetime defects "
+          "found by this check were repaired (137dbae, 4769647). Thread interleavings are sampled, not enumerated. Trusted: Lean "
+          "kernel; extract/shared.py's regex listing; thrprobe; ThreadSanitizer for unlisted races on executed paths."),
+    technique="Lean 4 proof (commutation + induction on schedules over an extracted shared-cell footprint) + threaded differential testing under ASan/TSan")
+
+CHECKS["C09"] = {
+  "category": "proof",
+  "text": "Lean 4: value-level model of at/put/insert/delete/concat/count/set@/@N/tab/tup (Model/Members.lean, transcribed from "
+          "blocc/member/*.cpp, builtin_tab/tup.cpp, expression_item.cpp, statement_forall.cpp) against the list specification "
+          "(Spec/Containers.lean: uniformity with tuples compared by declaration). Theorems: uniform_preserved_partial (induction over "
+          "every operation sequence; hypotheses: declarations in play hash injectively, no call in the level-mixing region), "
+          "at/delete/put/insert/str_at/item index contracts for every position value, tuple_structure_fixed, "
+          "forall_visits_once_in_order, forall_length_fixed, make_type_collision and the negations at the recorded witnesses. "
+          "Correspondence: 35k member × receiver × argument × position cases under static and opaque typing, operation sequences, "
+          "forall programs, under ASan/UBSan, compared with model and spec.",
+  "note": "partial: the full statement is false on the pinned tree (C09.tuple.hashCollision, C09.tuple.hashZero, C09.mix.level, "
+          "C09.{put,insert,concat,set}.nullDeref recorded); value refinement of put/insert/concat and forall at statement level are "
+          "checked by correspondence only.",
+  "technique": "interactive theorem proving (Lean 4 core) + exhaustive lattice differential testing against the executable model",
+}
+
+CHECKS["C15"] = {
+  "category": "proof",
+  "text": "Lean 4 handle state machine of blocc/bloc_capi.h (contexts, clones, symbols, values with caller/library ownership, "
+          "expressions, executables, process-wide error record, per-context epochs). Proved for ALL call sequences of the model: "
+          "library_pointer_stable (a pointer handed out at epoch e denotes the same unmodified variable cell in every later state "
+          "whose epoch is still e), error_record_contract (a failing call leaves exactly its code in bloc_errno/strerror; "
+          "successful non-parse calls do not touch it; successful parses clear it), accessor_contract (partial: succeeds iff the type "
+          "matches, data NULL iff null; negation proved for bloc_literal/bloc_tabchar on null), api_script_agree (both directions), "
+          "context_reusable_after_error (rejected text / failing run). Tie to the code: differential run of state-machine call "
+          "sequences (<=40 quick, <=200 thorough) through the real C API only, under ASan+UBSan+LSan, every call's result, "
+          "out-parameters, re-read library pointers and errno/strerror compared with the model.",
+  "note": "PARTIAL. Memory reclamation is NOT modelled: 'no memory remains' is LeakSanitizer's verdict on the generated sequences "
+          "and on every truncation of 7 programs, not a theorem. 11 findings recorded (2 null dereferences, errno 0 on EOF, store "
+          "nulls scalar sources, item pointers dangle after store, use-after-free when an executable/clone holding a function outlives "
+          "the declaring context's purge/free, 5 leak sites in error paths). Rejected texts come from a catalog inside the model; the "
+          "parser is not modelled here. bloc_break from a second thread, trace and plugins are outside.",
+  "technique": "Lean theorems over a transcribed state machine (case analysis over 38 ops + invariant by induction on sequences) "
+               "+ model-based differential testing with sanitizers; leak attribution by allocation call-site signature",
+}
+CHECKS["C15"].setdefault("design_ref", "DESIGN.md §6 C15, notes/NOTES-C15.md")
+
+CHECKS["C16"] = {
+  "category": "proof",
+  "text": "Lean model of PluginManager (loaded modules, granted names), the trusted flag (clone, child shells, purge) and the compile-time tests of constructor calls, import and include; theorem object_implies_granted: invariant over ALL host-operation histories (unban, clear, new/trust/clone/free/purge context, compile any program in any context, run any executable in any context), for every loader; corollary for histories without a trusted context (C API); path_import_refused, include_refused, trusted_unrestricted, ctor_everywhere. Tie to the code: complete enumeration of 5 940 permission configurations through the C++ classes and the C API against the model, plus the property evaluated directly on the library's answers.",
+  "note": "run-time constructor failures and function arity are not modelled; import of a non-granted module by NAME is accepted by the code (the library is loaded, no object can be made) - outside the property.",
+  "technique": "inductive invariant over operation histories (Lean 4) + exhaustive differential enumeration with a verification-only plugin"}
+CHECKS["C17"] = {
+  "category": "proof",
+  "text": "Lean model of the bloc::Complex reference counter, operation by operation (factory, copy/move ctor, destructor, operator=, both swaps) with C-level hazards as outcomes; theorems over ALL operation sequences: refs_eq_live_handles, destroy_at_most_once, destroy_at_zero_only, no_leak_at_quiescence (handle level), no_dangling_counter; store-level operations and a small object language expressed through the handle operations. Tie to the code: every well-formed handle-operation sequence up to length 4/5 on real handles, and random programs (variables, tables, functions, loops, error exits, clones, purge) against the event log of a verification-only module under ASan: constructor/method events and arguments exact, destroy at most once, within [model's earliest release, release of the last context involved], exactly once at quiescence.",
+  "note": "partial: the createEnv path on which an argument raises leaks the callee context (known finding, witnessed); program-level no-leak is a correspondence result, not a theorem; temp-pool slot reuse is bounded, not modelled; two further recorded defects (null dereference after move; use-after-free when a clone outlives its origin).",
+  "technique": "invariant over operation sequences (Lean 4) + bounded-exhaustive and random model-based testing with an instrumented plugin under AddressSanitizer"}
+
 NOT_YET = {}
+for _k, _c in CHECKS.items():
+    _c.setdefault("design_ref", "DESIGN.md §6 %s" % _k)
+    _c.setdefault("note", "")
+    _c.setdefault("technique", "Lean 4 proof + differential correspondence")
+
 
 ALL = ["C%02d" % i for i in range(1, 20)]
 
